@@ -116,9 +116,21 @@ def expr(e) -> str:
     if isinstance(e, ast.Await):
         return f"(Await {expr(e.value)} {r})"
     if isinstance(e, ast.Yield):
-        return f"(Yield {r})"
+        return f"(Yield {exprs([e.value] if e.value is not None else [])} {r})"
     if isinstance(e, ast.YieldFrom):
-        return f"(YieldFrom {r})"
+        return f"(YieldFrom {exprs([e.value])} {r})"
+    # forms that only combine sub-expressions and bind nothing: their parts, in the order the
+    # name scan of the analyzer visits them
+    if isinstance(e, ast.BoolOp):
+        return f"(Group {exprs(e.values)} {r})"
+    if isinstance(e, ast.IfExp):
+        return f"(Group {exprs([e.test, e.body, e.orelse])} {r})"
+    if isinstance(e, ast.Set):
+        return f"(Group {exprs(e.elts)} {r})"
+    if isinstance(e, ast.Starred):
+        return f"(Group {exprs([e.value])} {r})"
+    if isinstance(e, ast.Slice):
+        return f"(Group {exprs([x for x in (e.lower, e.upper, e.step) if x is not None])} {r})"
     return f"(Other {r})"
 
 def arg(a, has_default=False) -> str:
